@@ -3,6 +3,7 @@ package c02
 
 import (
 	"html/template"
+	"strconv"
 
 	plush "github.com/gobuffalo/plush/v5"
 
@@ -17,6 +18,7 @@ func init() {
 	vrt.Register("C02_bstring_literal", BStringLiteral)
 	vrt.Register("C02_tags_in_blocks", TagsInBlocks)
 	vrt.Register("C02_escape_sequences", EscapeSequences)
+	vrt.Register("C02_text_around_control_statements", TextAroundControlStatements)
 }
 
 // part of a template: literal text (symbolic) or a tag with a known value.
@@ -342,4 +344,53 @@ func EscapeSequences() {
 		parts = append(parts, part{"<% } %>", true, ""})
 	}
 	check(parts)
+}
+
+// literal text and output tags before a break / continue inside a loop body are
+// part of the output, what follows them in that iteration is not - for every
+// kind of iterable (array literal, slice variable, iterator helper, map of one entry)
+func TextAroundControlStatements() {
+	alphabet := "ab \n>&\"'"
+	s0 := vrt.BytesIn(vrt.IntRange(0, 1+vrt.Tier()), alphabet)
+	s1 := vrt.BytesIn(vrt.IntRange(0, 1), alphabet)
+	iters := []string{"[1, 2]", "xs12", "range(1, 2)", "between(0, 3)", "until3"}
+	vals := [][]int{{1, 2}, {1, 2}, {1, 2}, {1, 2}, {0, 1, 2}}
+	k := vrt.Choice(len(iters))
+	it := iters[k]
+	if it == "until3" {
+		it = "until(3)"
+	}
+	ctls := []string{"<% break %>", "<% continue %>", "<% if (q == 2) { break } %>", "<% if (q == 1) { continue } %>", ""}
+	c := vrt.Choice(len(ctls))
+	in := "[<%= for (q) in " + it + " { %>" + s0 + "<%= q %>" + ctls[c] + s1 + "<% } %>]"
+	want := "["
+	for _, v := range vals[k] {
+		want += s0 + strconv.Itoa(v)
+		if c == 0 {
+			break
+		}
+		if c == 1 {
+			continue
+		}
+		if c == 2 {
+			if v == 2 {
+				break
+			}
+		}
+		if c == 3 {
+			if v == 1 {
+				continue
+			}
+		}
+		want += s1
+	}
+	want += "]"
+	ctx := newCtx()
+	ctx.Set("xs12", []int{1, 2})
+	vrt.Note("input", in)
+	got, err := plush.Render(in, ctx)
+	vrt.Note("got", got)
+	vrt.Assert(err == nil, "a loop with a control statement renders")
+	vrt.Assert(got == want, "text and values before a break/continue are kept, in source order; what follows in that iteration is dropped")
+	vrt.Cover("rendered")
 }
